@@ -101,7 +101,7 @@ class DeferredFileWriter(metaclass=Singleton):
             tmp_path, open_path, old_mode = open_file
             # Can't use Path.samefile, since the files don't have to exist yet
             if open_path == path:
-                if 'w' in mode and 'w' not in old_mode and '+' not in old_mode:
+                if 'w' in mode and 'a' in old_mode:
                     # Truncating a file that was so far appended to discards
                     # the old contents, so the result must replace the
                     # destination rather than be appended to it.
